@@ -529,6 +529,36 @@ func genAPIMal(r *rng) string {
 				f = pick(r, malPaths)
 			}
 			parts = append(parts, "(distinct "+s+" "+t+" "+hx(f)+" "+enc(filter())+")")
+		case k < 88 && k >= 85 && r.chance(1, 2):
+			// catalog-level calls with hostile arguments: listings filtered on every
+			// field of the specification documents with values of every type,
+			// collections with odd names, CreateMany with weird keys
+			specField := pick(r, []string{"name", "type", "options", "info", "info.uuid", "info.readOnly", "idIndex", "idIndex.v", "idIndex.key", "idIndex.key._id", "idIndex.name", "idIndex.namespace", "sizeOnDisk", "empty", "", "idIndex.v.x", "idIndex.0"})
+			var flt bson.D
+			switch r.intn(4) {
+			case 0:
+				flt = bson.D{{Key: specField, Value: g.value(2)}}
+			case 1:
+				flt = bson.D{{Key: specField, Value: bson.D{{Key: pick(r, []string{"$gt", "$lte", "$ne", "$in", "$type", "$size", "$all", "$mod", "$exists", "$elemMatch", "$not"}), Value: g.value(2)}}}}
+			case 2:
+				flt = g.weirdAPI(2)
+			default:
+				flt = bson.D{{Key: specField, Value: pick(r, []interface{}{int32(2), int64(0), float64(1), int32(1), false, "collection", bson.D{}})}}
+			}
+			if malUnmodelled(flt) {
+				flt = bson.D{{Key: specField, Value: int32(2)}}
+			}
+			switch r.intn(4) {
+			case 0:
+				parts = append(parts, "(listColls "+s+" "+hx(pick(r, []string{"db", "db", "local", "", "a.b"}))+" "+enc(flt)+")")
+			case 1:
+				parts = append(parts, "(listDbs "+s+" "+enc(flt)+")")
+			case 2:
+				parts = append(parts, "(createColl "+s+" "+hx(pick(r, []string{"db", "db", "local", "", "a.b", "$x"}))+" "+hx(pick(r, []string{"c", "n", "", "a.b", "$cmd", "system.x", "\x00"}))+")")
+			default:
+				key := bson.D{{Key: pick(r, malPaths), Value: pick(r, []interface{}{int32(1), int32(-1), int64(1), float64(1), "x", math.NaN(), nil})}}
+				parts = append(parts, "(createMany "+s+" "+t+" ("+hx(pick(r, []string{"", "ix", "_id_"}))+" "+enc(key)+" "+tf(r.chance(1, 3))+" NIL NIL) ("+hx("")+" "+enc(bson.D{{Key: "m", Value: int32(1)}})+" F NIL NIL))")
+			}
 		case k < 92:
 			partial := "NIL"
 			if r.chance(1, 2) {
